@@ -2,6 +2,8 @@ package checks
 
 import (
 	"context"
+	"database/sql"
+	"os"
 	"errors"
 	"fmt"
 	"sort"
@@ -179,6 +181,9 @@ func runC09(t *testing.T, tier string) int {
 		aw := &awaitWorld{w}
 		empty := &world.Snapshot{Cols: map[string][]string{}, Rows: map[string][]world.Row{}, TakenL: time.Date(2000, 1, 1, 0, 0, 0, 0, time.UTC)}
 		for _, cs := range cases {
+			if only := os.Getenv("VERIF_C09_ONLY"); only != "" && only != cs.name {
+				continue
+			}
 			if err := w.Restore(empty); err != nil {
 				t.Fatal(err)
 			}
@@ -238,7 +243,10 @@ func runC09(t *testing.T, tier string) int {
 				}
 				samples = append(samples, map[string]any{"operation": cs.name, "fault_points": qs, "waiters_woken_by_success": okFired})
 			}
-			kinds := []string{"error", "cancel"}
+			// txdone: the statement / commit fails with sql.ErrTxDone while the request
+			// context is cancelled (what a commit that lost the race against the
+			// cancellation rollback of database/sql looks like)
+			kinds := []string{"error", "cancel", "txdone"}
 			runFaulted := func(k int, kind string) (model.Obs, []string, *world.Snapshot) {
 				if err := w.Restore(prepared); err != nil {
 					t.Fatal(err)
@@ -264,6 +272,10 @@ func runC09(t *testing.T, tier string) int {
 							cancel()
 							return context.Canceled
 						}
+						if kind == "txdone" {
+							cancel()
+							return fmt.Errorf("verif: %w", sql.ErrTxDone)
+						}
 						return errInjected
 					}
 					n++
@@ -286,6 +298,9 @@ func runC09(t *testing.T, tier string) int {
 				for _, kind := range kinds {
 					points++
 					desc := fmt.Sprintf("%s: fail point %d/%d (%s) with %s", cs.name, k, len(pts), pointName(pts[k]), kind)
+					if os.Getenv("VERIF_VERBOSE") != "" {
+						fmt.Println(desc)
+					}
 					o, fired, after := runFaulted(k, kind)
 					if o.Err == "" {
 						sink.add(report.Viol{Property: "C09", Check: "C09/" + cs.name, Rule: "fault-swallowed", Text: desc + ": the operation reported success", Trace: []string{cs.name, fmt.Sprint(k), kind}})
@@ -333,7 +348,7 @@ func runC09(t *testing.T, tier string) int {
 	cov := map[string]any{
 		"evaluations":         execs,
 		"distinct_nontrivial": points,
-		"rule":                "operation x index of every BEGIN / statement / COMMIT it issues x {driver error, context cancelled at that point}; each faulted run must report an error, leave the five tables byte-identical, wake no registered waiter, and a fault-free retry must reach the same tables as the fault-free run (modulo fresh ids, 50ms); distinct_nontrivial = distinct (operation, point, kind) triples",
+		"rule":                "operation x index of every BEGIN / statement / COMMIT it issues x {driver error, context cancelled at that point, sql.ErrTxDone with the context cancelled}; each faulted run must report an error, leave the five tables byte-identical, wake no registered waiter, and a fault-free retry must reach the same tables as the fault-free run (modulo fresh ids, 50ms); distinct_nontrivial = distinct (operation, point, kind) triples",
 		"samples":             samples,
 		"operations":          len(cases),
 		"fault_points_per_operation": perOp,
